@@ -44,17 +44,19 @@ func exploreProfiles(r *ev.Result, budget time.Duration, profiles ...*bworld.Pro
 			r.Exhaustive = false
 		}
 		perProfile = append(perProfile, map[string]any{
-			"profile":          p.Name,
-			"states":           res.States,
-			"transitions":      res.Transitions,
-			"executions":       res.Execs,
-			"steps":            res.Steps,
-			"depth":            res.MaxDepth,
-			"states_per_depth": res.PerDepth,
-			"exhaustive":       res.Exhaustive,
-			"cap":              res.CapNote,
-			"unstable_dropped": res.Unstable,
-			"bounds":           p,
+			"profile":                        p.Name,
+			"states":                         res.States,
+			"transitions":                    res.Transitions,
+			"executions":                     res.Execs,
+			"steps":                          res.Steps,
+			"depth":                          res.MaxDepth,
+			"states_per_depth":               res.PerDepth,
+			"exhaustive":                     res.Exhaustive,
+			"cap":                            res.CapNote,
+			"unstable_dropped":               res.Unstable,
+			"unconfirmed_violations_dropped": res.Unconfirmed,
+			"unconfirmed_note":               res.UnconfirmedNote,
+			"bounds":                         p,
 		})
 		for _, s := range res.Samples {
 			r.Sample(12, s)
